@@ -24,13 +24,16 @@ func genOp(t *rapid.T) Op {
 	case "addRun", "pushRun", "popRun", "popLastRun":
 		op.A = rapid.IntRange(0, maxRun-1).Draw(t, "run")
 	}
+	if rapid.IntRange(0, 39).Draw(t, "longRun") == 0 {
+		op = Op{K: rapid.SampledFrom([]string{"addRunL", "addRunL", "pushRunL", "pushRunL", "popRunL", "popLastRunL"}).Draw(t, "longKind"), A: rapid.IntRange(0, 499).Draw(t, "longLen")}
+	}
 	return op
 }
 
 func genCase(t *rapid.T) Case {
 	c := Case{Ctor: rapid.SampledFrom([]string{"zero", "new", "size", "size", "size"}).Draw(t, "ctor")}
 	if c.Ctor == "size" {
-		c.N = rapid.IntRange(0, 17).Draw(t, "n")
+		c.N = rapid.OneOf(rapid.IntRange(0, 17), rapid.IntRange(0, 17), rapid.SampledFrom([]int{31, 32, 33, 63, 64, 65, 100, 127, 128, 129, 255, 256, 257, 511, 512, 513})).Draw(t, "n")
 	}
 	ops := rapid.SliceOfN(rapid.Custom(genOp), 0, 76).Draw(t, "ops")
 	// Construction instead of rejection: most cases start with a prefix that
